@@ -144,9 +144,9 @@ Proof.
 Qed.
 
 (* ---- the normaliser on a relative path: its components, joined ---- *)
-Lemma norm_relative : forall cwd p, is_abs p = false -> is_abs (unbackslash p) = false ->
+Lemma norm_relative : forall cwd p, is_abs (unbackslash p) = false ->
   norm cwd p = join_slash (comps (unbackslash p)).
-Proof. intros cwd p H1 H2. unfold norm, strip_cwd. rewrite H1, H2. reflexivity. Qed.
+Proof. intros cwd p H. unfold norm, strip_cwd. rewrite !H. reflexivity. Qed.
 
 Lemma is_abs_unbackslash_false : forall p, is_abs (unbackslash p) = false -> is_abs p = false.
 Proof.
@@ -162,11 +162,10 @@ Theorem norm_walked_rel : forall cwd root rc below,
 Proof.
   intros cwd root rc below (Ha & Hne & Hc) Hb. unfold walked.
   destruct below as [|b bs] eqn:Eb.
-  - rewrite app_nil_r. rewrite norm_relative; [now rewrite Hc| now apply is_abs_unbackslash_false | exact Ha].
+  - rewrite app_nil_r. rewrite norm_relative; [now rewrite Hc|exact Ha].
   - rewrite <- Eb in *. assert (Hbs : existsb (N.eqb c_bslash) (join_slash below) = false) by now apply no_bslash_join.
     rewrite norm_relative.
     + rewrite (unbackslash_pjoin root _ Hbs), Hc, (comps_join_clean below Hb). reflexivity.
-    + apply is_abs_unbackslash_false. now rewrite is_abs_unbackslash_pjoin.
     + now rewrite is_abs_unbackslash_pjoin.
 Qed.
 
@@ -189,9 +188,14 @@ Proof.
     - rewrite <- Eb in *. split; [now rewrite is_abs_pjoin|].
       rewrite comps_pjoin, Hc, (comps_join_clean below Hb). now rewrite app_assoc. }
   destruct Hw as [Hw1 Hw2].
-  unfold norm, strip_cwd. rewrite Hw1, Hcwd, Hw2, strip_pref_app.
-  rewrite (join_clean_not_abs _ Hall). cbn [app].
-  rewrite (unbackslash_id _ (no_bslash_join _ Hall)). now rewrite comps_join_clean.
+  assert (Hnbw : existsb (N.eqb c_bslash) (walked root below) = false).
+  { unfold walked. destruct below as [|b bs] eqn:Eb; [exact Hnb|]. rewrite <- Eb in *.
+    unfold pjoin. destruct (ends_slash root); rewrite existsb_app; apply orb_false_iff; split; try exact Hnb.
+    - now apply no_bslash_join.
+    - cbn [existsb]. apply orb_false_iff. split; [reflexivity|now apply no_bslash_join]. }
+  unfold norm, strip_cwd. rewrite (unbackslash_id _ Hnbw). rewrite Hw1, Hcwd, Hw2, strip_pref_app.
+  pose proof (join_clean_not_abs _ Hall) as Hna. rewrite (unbackslash_id _ (no_bslash_join _ Hall)) in Hna.
+  rewrite Hna. cbn [app]. now rewrite comps_join_clean.
 Qed.
 
 (* any decision that reads the path only through the normaliser is spelling-invariant *)
@@ -215,8 +219,100 @@ Qed.
 Lemma norm_fixed_point : forall cwd cs, clean_list cs = true -> norm cwd (join_slash cs) = join_slash cs.
 Proof.
   intros cwd cs H. pose proof (join_clean_not_abs cs H) as Ha.
-  rewrite norm_relative; [|now apply is_abs_unbackslash_false|exact Ha].
+  rewrite norm_relative by exact Ha.
   rewrite (unbackslash_id _ (no_bslash_join cs H)). now rewrite comps_join_clean.
+Qed.
+
+(* ---- idempotence for EVERY string: what the normaliser returns is a fixed point ---- *)
+Lemma unbackslash_no_bslash : forall p, existsb (N.eqb c_bslash) (unbackslash p) = false.
+Proof.
+  induction p as [|c p IH]; [reflexivity|]. unfold unbackslash. cbn [map existsb]. fold (unbackslash p).
+  rewrite IH, orb_false_r. destruct (N.eqb c c_bslash) eqn:E; [reflexivity|]. now rewrite N.eqb_sym.
+Qed.
+
+Lemma split_pieces : forall p x, In x (split p) ->
+  existsb (N.eqb c_slash) x = false /\ (existsb (N.eqb c_bslash) p = false -> existsb (N.eqb c_bslash) x = false).
+Proof.
+  induction p as [|c p IH]; intros x Hin.
+  - cbn in Hin. destruct Hin as [<-|[]]. split; reflexivity.
+  - cbn [split] in Hin. destruct (N.eqb c c_slash) eqn:E.
+    + destruct Hin as [<-|Hin]; [split; reflexivity|].
+      destruct (IH x Hin) as [A B]. split; [exact A|]. intros Hb. cbn [existsb] in Hb.
+      apply orb_false_iff in Hb as [_ Hb]. now apply B.
+    + destruct (split p) as [|h t] eqn:Es; [exfalso; exact (split_nonempty p Es)|].
+      destruct Hin as [<-|Hin].
+      * destruct (IH h (or_introl eq_refl)) as [A B]. split.
+        -- cbn [existsb]. rewrite N.eqb_sym, E. exact A.
+        -- intros Hb. cbn [existsb] in Hb. apply orb_false_iff in Hb as [Hb1 Hb2].
+           cbn [existsb]. rewrite Hb1. now apply B.
+      * destruct (IH x (or_intror Hin)) as [A B]. split; [exact A|]. intros Hb. cbn [existsb] in Hb.
+        apply orb_false_iff in Hb as [_ Hb]. now apply B.
+Qed.
+
+Lemma comps_clean_list : forall p, existsb (N.eqb c_bslash) p = false -> clean_list (comps p) = true.
+Proof.
+  intros p Hb. unfold clean_list. apply forallb_forall. intros x Hin. unfold comps in Hin.
+  apply filter_In in Hin as [Hin Hk]. destruct (split_pieces p x Hin) as [A B].
+  unfold clean. rewrite Hk, A, (B Hb). reflexivity.
+Qed.
+
+Lemma join_no_bslash_from_comps : forall p, existsb (N.eqb c_bslash) p = false ->
+  existsb (N.eqb c_bslash) (join_slash (comps p)) = false.
+Proof. intros p H. apply no_bslash_join. now apply comps_clean_list. Qed.
+
+Lemma strip_pref_sound : forall a b r, strip_pref a b = Some r -> b = a ++ r.
+Proof.
+  induction a as [|x a IH]; intros b r H; cbn in H; [now inversion H|].
+  destruct b as [|y b]; [discriminate|]. destruct (str_eqb x y) eqn:E; [|discriminate].
+  assert (x = y).
+  { clear -E. revert y E. induction x as [|c x IHx]; intros [|d y] E; try discriminate; [reflexivity|].
+    cbn in E. apply andb_true_iff in E as [E1 E2]. apply N.eqb_eq in E1. subst. f_equal. now apply IHx. }
+  subst. cbn. f_equal. now apply IH.
+Qed.
+
+Lemma comps_slash_join : forall cs, clean_list cs = true -> comps (c_slash :: join_slash cs) = cs.
+Proof.
+  intros cs H. change (c_slash :: join_slash cs) with ([] ++ c_slash :: join_slash cs).
+  rewrite comps_app_slash. cbn [comps split filter keep app]. now apply comps_join_clean.
+Qed.
+
+Theorem norm_idem : forall cwd p, existsb (N.eqb c_bslash) cwd = false ->
+  norm cwd (norm cwd p) = norm cwd p.
+Proof.
+  intros cwd p Hcw.
+  set (u := unbackslash p). assert (Hu : existsb (N.eqb c_bslash) u = false) by apply unbackslash_no_bslash.
+  assert (Hn : norm cwd p = (if is_abs (strip_cwd cwd u) then [c_slash] else []) ++ join_slash (comps (strip_cwd cwd u)))
+    by reflexivity.
+  rewrite Hn. clear Hn.
+  (* q = strip_cwd cwd u has no backslash either *)
+  assert (Hq : existsb (N.eqb c_bslash) (strip_cwd cwd u) = false).
+  { unfold strip_cwd. destruct (is_abs u); [|exact Hu].
+    destruct (strip_pref (comps cwd) (comps u)) as [rest|] eqn:Es; [|exact Hu].
+    apply no_bslash_join. apply strip_pref_sound in Es.
+    pose proof (comps_clean_list u Hu) as Hc. rewrite Es in Hc. unfold clean_list in *.
+    rewrite forallb_app in Hc. now apply andb_true_iff in Hc as [_ Hc]. }
+  set (q := strip_cwd cwd u) in *.
+  pose proof (comps_clean_list q Hq) as Hcs. set (cs := comps q) in *.
+  destruct (is_abs q) eqn:Eq.
+  - (* absolute and not below the current directory: stays as it is *)
+    cbn [app]. unfold norm, strip_cwd.
+    assert (Hr : existsb (N.eqb c_bslash) (c_slash :: join_slash cs) = false).
+    { cbn [existsb]. apply orb_false_iff. split; [reflexivity|now apply no_bslash_join]. }
+    rewrite (unbackslash_id _ Hr). cbn [is_abs]. rewrite N.eqb_refl.
+    rewrite (comps_slash_join cs Hcs).
+    (* q is absolute: it came from u unchanged, so the prefix test failed on cs *)
+    assert (Hfail : strip_pref (comps cwd) cs = None).
+    { subst q cs. unfold strip_cwd in *. destruct (is_abs u) eqn:Eu.
+      - destruct (strip_pref (comps cwd) (comps u)) as [rest|] eqn:Es; [|exact Es].
+        (* stripped: the result is a join of clean components, which is not absolute *)
+        exfalso. apply strip_pref_sound in Es.
+        pose proof (comps_clean_list u Hu) as Hc. rewrite Es in Hc. unfold clean_list in Hc.
+        rewrite forallb_app in Hc. apply andb_true_iff in Hc as [_ Hc].
+        pose proof (join_clean_not_abs rest Hc) as Hna.
+        rewrite (unbackslash_id _ (no_bslash_join rest Hc)) in Hna. congruence.
+      - congruence. }
+    rewrite Hfail. cbn [is_abs]. rewrite N.eqb_refl. now rewrite (comps_slash_join cs Hcs).
+  - cbn [app]. now apply norm_fixed_point.
 Qed.
 
 Lemma comps_cwd_of : forall cc, clean_list cc = true -> comps (cwd_of cc) = cc.
